@@ -521,7 +521,9 @@ func runLengths(c *engine.Ctx, getPKI func(t *engine.T) map[string]*family, smOn
 			bs := blockSizeOf(cs)
 			key := pskOf(cs.c.KeySize(), 0x22)
 			key0 := append([]byte{}, key...) // the same key slice goes to every call and stays the caller's
-			defer func() { argUnchanged(t, "caller-memory/key-modified/psk/"+cs.kind, cs.name, "key (handed to every call of the size history)", key, key0) }()
+			defer func() {
+				argUnchanged(t, "caller-memory/key-modified/psk/"+cs.kind, cs.name, "key (handed to every call of the size history)", key, key0)
+			}()
 			// sizes going up and down on the process-wide cipher object: ascending, then descending, then interleaved
 			ls := blockLens(t.Quick())
 			var order []int
